@@ -22,45 +22,45 @@ open BM
 theorem occ_mem_iff (data pat : Bits) (s e : Nat) (al : Bool) (p : Nat) :
     p ∈ occ data pat s e al ↔
       s ≤ p ∧ p + pat.length ≤ e ∧ (data.drop p).take pat.length = pat ∧ (al = true → p % 8 = 0) := by
-  sorry
+  exact mem_occ data pat s e al p
 
 /-- "in increasing order": each position once, strictly increasing. -/
 theorem occ_sorted (data pat : Bits) (s e : Nat) (al : Bool) :
     (occ data pat s e al).Pairwise (· < ·) := by
-  sorry
+  exact occ_sorted' data pat s e al
 
 /-! ### primitives: the executable list programs equal their list meaning -/
 
 /-- The suffix scan standing for `bitarray.search` / `bytes.find` finds all and only the occurrences in the window. -/
 theorem scan_eq_occG {α} [DecidableEq α] (data pat : List α) (s e : Nat) (he : e ≤ data.length) :
     scan pat e (data.drop s) s = occG data pat s e := by
-  sorry
+  exact scan_eq_occG' data pat s e he
 
 /-- `list(a.search(sub, start, end))` = all occurrences, increasing. -/
 theorem baSearch_eq_occ (data pat : Bits) (s e : Nat) (he : e ≤ data.length) :
     baSearch data pat s e = occ data pat s e false := by
-  sorry
+  exact baSearch_eq_occ' data pat s e he
 
 /-- `b.find(sub, k)` = the lowest occurrence at or after `k`. -/
 theorem bytesFind_spec (b sub : List Nat) (k : Nat) :
     bytesFind b sub k = (occG b sub k b.length).head? := by
-  sorry
+  exact bytesFind_spec' b sub k
 
 /-- `tobytes()` of a whole number of bytes: byte j is the value of bits `[8j, 8j+8)`. -/
 theorem toBytes_whole (l : Bits) (k : Nat) (h : l.length = 8 * k) :
     toBytes l = (List.range k).map fun j => bitsToNat (slice l (8 * j) (8 * j + 8)) := by
-  sorry
+  exact toBytes_whole' k l h
 
 /-- A byte-sequence match at byte index j ⇔ a bit match at bit 8j (both operands whole bytes). -/
 theorem chunk8_match_iff (w pat : Bits) (j : Nat) (hw : 8 ∣ w.length) (hp : 8 ∣ pat.length) :
     matchAt (toBytes w) (toBytes pat) j = matchAt w pat (8 * j) := by
-  sorry
+  exact chunk8_match_iff' w pat j hw hp
 
 /-- Ceil/floor window: a byte-aligned occurrence of a whole-byte pattern lies inside `[start, end)` iff it lies
     inside the window the fast path searches, `[8*ceil(start/8), 8*floor(end/8))`. -/
 theorem window_lemma (s e p m : Nat) (hp : 8 ∣ p) (hm : 8 ∣ m) :
     (s ≤ p ∧ p + m ≤ e) ↔ (8 * ((s + 7) / 8) ≤ p ∧ p + m ≤ 8 * (e / 8)) := by
-  sorry
+  omega
 
 /-! ### both paths of `BitStore.findall_msb0`, and the reverse path -/
 
@@ -69,51 +69,55 @@ theorem window_lemma (s e p m : Nat) (hp : 8 ∣ p) (hm : 8 ∣ m) :
 theorem fastpath_eq_occ (data pat : Bits) (s e : Nat) (hne : pat ≠ []) (h8 : 8 ∣ pat.length)
     (he : e ≤ data.length) :
     findallFast data pat s e = occ data pat s e true := by
-  sorry
+  exact fastpath_eq_occ' data pat s e hne h8 he
 
 /-- The general path (not aligned, or pattern not a whole number of bytes), any pattern. -/
 theorem general_eq_occ (data pat : Bits) (s e : Nat) (al : Bool) (he : e ≤ data.length)
     (hgen : al = false ∨ pat.length % 8 ≠ 0) :
     findallMsb0 data pat s e al = occ data pat s e al := by
-  sorry
+  exact general_eq_occ' data pat s e al he hgen
 
 /-- `findall_msb0` as a whole. -/
 theorem findallMsb0_eq_occ (data pat : Bits) (s e : Nat) (al : Bool) (hne : pat ≠ []) (he : e ≤ data.length) :
     findallMsb0 data pat s e al = occ data pat s e al := by
-  sorry
+  exact findallMsb0_eq_occ' data pat s e al hne he
 
 /-- `rfindall_msb0`: the same positions, highest first. -/
 theorem rfindallMsb0_eq_occ (data pat : Bits) (s e : Nat) (al : Bool) (he : e ≤ data.length) :
     rfindallMsb0 data pat s e al = (occ data pat s e al).reverse := by
-  sorry
+  exact rfindallMsb0_eq_occ' data pat s e al he
 
 /-! ### find = lowest, rfind = highest -/
 
 theorem storeFind_eq (data pat : Bits) (s e : Nat) (al : Bool) (hne : pat ≠ []) (he : e ≤ data.length) :
     storeFind data pat s e al = specFind data pat s e al := by
-  sorry
+  exact storeFind_eq' data pat s e al hne he
 
 theorem storeRfind_eq (data pat : Bits) (s e : Nat) (al : Bool) (he : e ≤ data.length) :
     storeRfind data pat s e al = specRfind data pat s e al := by
-  sorry
+  exact storeRfind_eq' data pat s e al he
 
 /-- "find returns the lowest such p". -/
 theorem find_lowest (data pat : Bits) (s e : Nat) (al : Bool) (hne : pat ≠ []) (he : e ≤ data.length) (p : Nat) :
     storeFind data pat s e al = some p ↔ (p ∈ occ data pat s e al ∧ ∀ q ∈ occ data pat s e al, p ≤ q) := by
-  sorry
+  rw [storeFind_eq' data pat s e al hne he]
+  exact head?_some_iff_sorted _ (occ_sorted' data pat s e al) p
 
 theorem find_none_iff (data pat : Bits) (s e : Nat) (al : Bool) (hne : pat ≠ []) (he : e ≤ data.length) :
     storeFind data pat s e al = none ↔ occ data pat s e al = [] := by
-  sorry
+  rw [storeFind_eq' data pat s e al hne he]
+  exact List.head?_eq_none_iff
 
 /-- "rfind the highest". -/
 theorem rfind_highest (data pat : Bits) (s e : Nat) (al : Bool) (he : e ≤ data.length) (p : Nat) :
     storeRfind data pat s e al = some p ↔ (p ∈ occ data pat s e al ∧ ∀ q ∈ occ data pat s e al, q ≤ p) := by
-  sorry
+  rw [storeRfind_eq' data pat s e al he]
+  exact getLast?_some_iff_sorted _ (occ_sorted' data pat s e al) p
 
 theorem rfind_none_iff (data pat : Bits) (s e : Nat) (al : Bool) (he : e ≤ data.length) :
     storeRfind data pat s e al = none ↔ occ data pat s e al = [] := by
-  sorry
+  rw [storeRfind_eq' data pat s e al he]
+  exact List.getLast?_eq_none_iff
 
 /-! ### `_validate_slice` -/
 
@@ -124,40 +128,70 @@ theorem validate_slice_spec (len : Nat) (start stop : Option Int) :
       match specWindow len start stop with
       | none => .error .value
       | some w => .ok w := by
-  sorry
+  exact validate_slice_spec' len start stop
 
 /-- A validated window is inside the data. -/
 theorem validate_slice_bounds (len : Nat) (start stop : Option Int) (s e : Nat)
     (h : validateSlice len start stop = .ok (s, e)) : s ≤ e ∧ e ≤ len := by
-  sorry
+  exact validate_slice_bounds' len start stop s e h
 
 /-- The validated window `[s, e)` is the window Python's own `data[start:end]` denotes. -/
 theorem validate_slice_window {α} (l : List α) (start stop : Option Int) (s e : Nat)
     (h : validateSlice l.length start stop = .ok (s, e)) :
     Py.getSlice l start stop none = .ok (slice l s e) := by
-  sorry
+  exact validate_slice_window' l start stop s e h
 
 theorem defaultBA_eq (ba : Option Bool) (o : Bool) : defaultBA ba o = specAligned ba o := by
-  sorry
+  exact defaultBA_eq' ba o
 
 /-! ### the public entry points on their whole domain -/
 
 theorem find_eq_spec (data pat : Bits) (start stop : Option Int) (ba : Option Bool) (optBA : Bool) :
     find data pat start stop ba optBA =
       specGuard true data.length pat start stop fun s e => specFind data pat s e (specAligned ba optBA) := by
-  sorry
+  unfold find specGuard
+  by_cases hp : pat = []
+  · subst hp; simp
+  · have hl : pat.length ≠ 0 := by intro h; exact hp (List.length_eq_zero_iff.mp h)
+    have hi : pat.isEmpty = false := by cases pat <;> simp_all
+    simp only [hl, if_false, hi, Bool.and_false, Bool.false_eq_true]
+    rw [validate_slice_spec']
+    cases hw : specWindow data.length start stop with
+    | none => rfl
+    | some w =>
+      obtain ⟨s, e⟩ := w
+      have hb := specWindow_some _ _ _ _ _ hw
+      simp only [defaultBA_eq']
+      rw [storeFind_eq' data pat s e _ hp hb.2.2.2]
 
 theorem rfind_eq_spec (data pat : Bits) (start stop : Option Int) (ba : Option Bool) (optBA : Bool) :
     rfind data pat start stop ba optBA =
       specGuard true data.length pat start stop fun s e => specRfind data pat s e (specAligned ba optBA) := by
-  sorry
+  unfold rfind specGuard
+  rw [validate_slice_spec']
+  by_cases hp : pat = []
+  · subst hp
+    cases hw : specWindow data.length start stop with
+    | none => simp
+    | some w => simp
+  · have hl : pat.length ≠ 0 := by intro h; exact hp (List.length_eq_zero_iff.mp h)
+    have hi : pat.isEmpty = false := by cases pat <;> simp_all
+    simp only [hl, if_false, hi, Bool.and_false, Bool.false_eq_true]
+    cases hw : specWindow data.length start stop with
+    | none => rfl
+    | some w =>
+      obtain ⟨s, e⟩ := w
+      have hb := specWindow_some _ _ _ _ _ hw
+      simp only [defaultBA_eq']
+      rw [storeRfind_eq' data pat s e _ hb.2.2.2]
 
 /-- The counting loop of `_findall_msb0` = "up to count". -/
 theorem findallCount_eq_take (count : Option Nat) (l : List Nat) :
     findallCount count l 0 = match count with
       | none => l
       | some n => l.take n := by
-  sorry
+  rw [findallCount_take count l 0]
+  cases count <;> simp
 
 /-- "findall all of them in increasing order including overlapping ones up to count".
     Full statement (no `hreg`) fails on the pinned tree: see `findall_empty_witness`.
@@ -168,7 +202,22 @@ theorem findall_sorted_complete_partial (data pat : Bits) (start stop : Option I
     findall data pat start stop count ba optBA =
       specGuard true data.length pat start stop fun s e =>
         specFindall data pat s e (specAligned ba optBA) (countNat count) := by
-  sorry
+  have hp : pat ≠ [] := by
+    intro h; subst h; simp [findall_empty_pattern] at hreg
+  have hi : pat.isEmpty = false := by cases pat <;> simp_all
+  rw [findall_unfold data pat start stop count ba optBA hc]
+  unfold specGuard
+  simp only [Bool.false_eq_true, if_false, hi, Bool.and_false]
+  rw [validate_slice_spec']
+  cases hw : specWindow data.length start stop with
+  | none => rfl
+  | some w =>
+    obtain ⟨s, e⟩ := w
+    have hb := specWindow_some _ _ _ _ _ hw
+    simp only [defaultBA_eq']
+    rw [findallMsb0_eq_occ' data pat s e _ hp hb.2.2.2, findallCount_take]
+    unfold specFindall
+    cases countNat count <;> simp
 
 /-- Known finding `findall-empty`: `list(Bits('0b101').findall(''))` is `[0, 1, 2, 3]`, the property demands
     ValueError. -/
@@ -181,39 +230,103 @@ theorem findall_empty_witness :
 /-- What the code does in that region: every position of the window on the general path … -/
 theorem findall_empty_general (data : Bits) (s e : Nat) (he : e ≤ data.length) :
     findallMsb0 data [] s e false = (List.range (e + 1)).filter fun p => decide (s ≤ p) := by
-  sorry
+  rw [general_eq_occ' data [] s e false he (Or.inl rfl), occ_false]
+  unfold occG matchAt
+  apply List.filter_congr
+  intro p hp
+  rw [List.mem_range] at hp
+  simp
+  omega
 
 /-- `in`: found at any bit position, whatever `options.bytealigned` says (doc/bits.rst `Bits.__contains__`:
     "True if bs can be found in the bitstring"; the code passes `bytealigned=False` explicitly). -/
 theorem contains_eq_spec (data pat : Bits) (optBA : Bool) :
     contains data pat optBA = if pat.isEmpty then .error .value else .ok (specContains data pat) := by
-  sorry
+  unfold contains
+  rw [find_eq_spec]
+  unfold specGuard
+  by_cases hp : pat = []
+  · subst hp; simp
+  · have hi : pat.isEmpty = false := by cases pat <;> simp_all
+    have hw : specWindow data.length none none = some (0, data.length) := by
+      simp [specWindow, normIdx]
+    simp only [hi, Bool.and_false, Bool.false_eq_true, if_false, hw]
+    unfold specFind specContains specAligned
+    simp only [Option.getD_some]
+    cases occ data pat 0 data.length false <;> simp
 
 theorem startswith_eq_spec (data pre : Bits) (start stop : Option Int) :
     startswith data pre start stop =
       specGuard false data.length pre start stop fun s e => specStartswith data pre s e := by
-  sorry
+  unfold startswith specGuard
+  rw [validate_slice_spec']
+  simp only [Bool.false_and, Bool.false_eq_true, if_false]
+  cases hw : specWindow data.length start stop with
+  | none => rfl
+  | some w =>
+    obtain ⟨s, e⟩ := w
+    simp only
+    congr 1
+    unfold specStartswith slice
+    have hm := mem_occ data pre s e false s
+    have hsub : s + pre.length - s = pre.length := by omega
+    rw [hsub]
+    by_cases h : s + pre.length ≤ e
+    · simp only [h, if_true]
+      rw [decide_eq_decide, hm]
+      constructor
+      · intro h3; exact ⟨Nat.le_refl _, h, h3, by simp⟩
+      · intro h3; exact h3.2.2.1
+    · simp only [h, if_false]
+      symm; rw [decide_eq_false_iff_not, hm]
+      intro h3; exact h h3.2.1
 
 theorem endswith_eq_spec (data suf : Bits) (start stop : Option Int) :
     endswith data suf start stop =
       specGuard false data.length suf start stop fun s e => specEndswith data suf s e := by
-  sorry
+  unfold endswith specGuard
+  rw [validate_slice_spec']
+  simp only [Bool.false_and, Bool.false_eq_true, if_false]
+  cases hw : specWindow data.length start stop with
+  | none => rfl
+  | some w =>
+    obtain ⟨s, e⟩ := w
+    simp only
+    congr 1
+    unfold specEndswith slice
+    have hm := mem_occ data suf s e false (e - suf.length)
+    by_cases h : s + suf.length ≤ e
+    · have h1 : e - (e - suf.length) = suf.length := by omega
+      simp only [h, if_true, h1]
+      rw [decide_eq_decide, hm]
+      constructor
+      · intro h3; exact ⟨by omega, by omega, by omega, h3, by simp⟩
+      · intro h3; exact h3.2.2.2.1
+    · simp only [h, if_false]
+      symm; rw [decide_eq_false_iff_not, hm]
+      rintro ⟨h1, h2, _⟩; omega
 
 theorem count_eq_spec (data : Bits) (v : Bool) : count data v = specCount data v := by
-  sorry
+  unfold count specCount
+  simp only [baCountOnes_eq]
+  have := count_split data
+  cases v
+  · simp only [Bool.false_eq_true, if_false]; omega
+  · simp
 
 /-! ### "an empty pattern (for find, rfind, in …) or an invalid range raises ValueError" -/
 
 theorem empty_pattern_error_find (data : Bits) (start stop : Option Int) (ba : Option Bool) (o : Bool) :
     find data [] start stop ba o = .error .value := by
-  sorry
+  simp [find]
 
 theorem empty_pattern_error_rfind (data : Bits) (start stop : Option Int) (ba : Option Bool) (o : Bool) :
     rfind data [] start stop ba o = .error .value := by
-  sorry
+  rw [rfind_eq_spec]
+  simp [specGuard]
 
 theorem empty_pattern_error_in (data : Bits) (o : Bool) : contains data [] o = .error .value := by
-  sorry
+  simp [contains, find]
 
 /-- An invalid range is a ValueError for every entry point that takes a range (empty pattern or not). -/
 theorem invalid_range_error (data pat : Bits) (start stop : Option Int) (count : Option Int) (ba : Option Bool) (o : Bool)
@@ -221,7 +334,14 @@ theorem invalid_range_error (data pat : Bits) (start stop : Option Int) (count :
     find data pat start stop ba o = .error .value ∧ rfind data pat start stop ba o = .error .value ∧
     findall data pat start stop count ba o = .error .value ∧
     startswith data pat start stop = .error .value ∧ endswith data pat start stop = .error .value := by
-  sorry
+  have hv : validateSlice data.length start stop = .error .value := by
+    rw [validate_slice_spec', hw]
+  refine ⟨?_, ?_, ?_, ?_, ?_⟩
+  · unfold find; rw [hv]; split <;> rfl
+  · unfold rfind; rw [hv]
+  · rw [findall_unfold data pat start stop count ba o hc, hv]
+  · unfold startswith; rw [hv]
+  · unfold endswith; rw [hv]
 
 /-! ### non-vacuity -/
 example : occ [false,false,false,false,true,false,true,true, false,false,false,false,true,false,true,true]
